@@ -35,6 +35,16 @@ func (c *Conversation) akeHasFinished() error {
 	return c.generateNewDHKeyPair()
 }
 
+// what waits for retransmission goes out when this message has completed a key exchange - not when
+// it was rejected (the messages produced would be dropped with the error) or ignored
+func (c *Conversation) retransmitAfterCompletedExchange(wasIdle bool, err error) []messageWithHeader {
+	if _, idle := c.ake.state.(authStateNone); wasIdle || !idle || err != nil {
+		return nil
+	}
+	toSend, _ := c.maybeRetransmit()
+	return toSend
+}
+
 func (c *Conversation) processAKE(msgType byte, msg []byte) (toSend []messageWithHeader, err error) {
 	c.ensureAKE()
 
@@ -47,11 +57,13 @@ func (c *Conversation) processAKE(msgType byte, msg []byte) (toSend []messageWit
 	case msgTypeDHKey:
 		c.ake.state, toSendSingle, err = c.ake.state.receiveDHKeyMessage(c, msg)
 	case msgTypeRevealSig:
+		_, wasIdle := c.ake.state.(authStateNone)
 		c.ake.state, toSendSingle, err = c.ake.state.receiveRevealSigMessage(c, msg)
-		toSendExtra, _ = c.maybeRetransmit()
+		toSendExtra = c.retransmitAfterCompletedExchange(wasIdle, err)
 	case msgTypeSig:
+		_, wasIdle := c.ake.state.(authStateNone)
 		c.ake.state, toSendSingle, err = c.ake.state.receiveSigMessage(c, msg)
-		toSendExtra, _ = c.maybeRetransmit()
+		toSendExtra = c.retransmitAfterCompletedExchange(wasIdle, err)
 	default:
 		err = newOtrErrorf("unknown message type 0x%X", msgType)
 	}
